@@ -29,7 +29,7 @@ C01_WriteIn0to255 ==
      => out.wrote \in 0..P
 \* the value is not written only when the fan already shows it
 C01_SkipOnlyWhenEqual ==
-  IsCycleOk /\ out.wrote = Nil => cfg.hasPwm /\ pwm \in WS(out.req)
+  IsCycleOk /\ ~touched /\ out.wrote = Nil => cfg.hasPwm /\ pwm \in WS(out.req)
 
 \* ---- C02 ----
 \* never below the minimum; every raise (offset counts them) is permanent
@@ -44,14 +44,16 @@ C02_RaiseOnlyWhenStalled ==
   [][Reset \/ (offset' > offset => cfg.neverStop /\ cfg.hasRpm /\ AvgLt1)]_pvars
 
 \* ---- C05 ----
+\* (`touched` is still set after a cycle only when the cycle itself was disturbed - somebody wrote to the fan in the middle of
+\*  it, or the device refused the write; the cycle after that one is held to the formula)
 C05_Undone ==
-  IsCycleOk => /\ (cfg.hasMode => mode = Manual)
+  IsCycleOk /\ ~touched => /\ (cfg.hasMode => mode = Manual)
                /\ pwm \in WS(last)
                /\ last = out.req
 \* a changed PWM value is counted, and nothing is counted while nobody else touches the fan
 C05_Counted ==
   [][Reset \/ (out'.ev = "Cycle" =>
-       /\ (cfg.hasPwm /\ last # Nil /\ pwm \notin WS(last)
+       /\ (cfg.hasPwm /\ last # Nil /\ pwm \notin WS(last) /\ ~out'.err     \* (a cycle that fails - curve not evaluable - may end before the comparison)
              => unexpected' = unexpected + 1)
        /\ (~touched => unexpected' = unexpected)
        /\ unexpected' \in {unexpected, unexpected + 1})]_pvars
@@ -118,6 +120,11 @@ C10_BoundedResponse ==
 HCycle == /\ touched' = FALSE
           /\ zeros' = IF out'.err \/ out'.req # last THEN 0 ELSE zeros
           /\ spin' = spin
+\* ... a cycle whose PWM write the device refused leaves the fan at a value fan2go did not intend: the next cycle may count
+\* it ("no third-party change is counted while nothing else touches the fan AND ITS WRITES SUCCEED")
+HCycleW(wfail) == /\ touched' = wfail
+                  /\ zeros' = IF out'.err \/ out'.req # last THEN 0 ELSE zeros
+                  /\ spin' = spin
 HRpm(r) == /\ touched' = touched
            /\ zeros' = IF r = 0 THEN zeros + 1 ELSE 0
            /\ spin' = IF r >= 2 THEN spin + 1 ELSE 0
